@@ -171,6 +171,29 @@ def check_linearity(case, r: R):
             for i, v in ph['I12'].items():
                 if not tol.close(v, pref['I'][i], S_I[i]):
                     r.fail('partial-vs-exact', f'part {g}: current {i!r}: lib {v} exact {complex(pref["I"][i])}')
+        # the removing variants of the same deactivation (sources contracted / deleted instead of zeroed in place):
+        # every node label and branch id that survives must carry the same partial response
+        if pref is not None and case.get('removal_route'):
+            rn = None
+            with r.lib('passive_network'):
+                rn = trf.passive_network(N, keep=keep)
+            if rn is not None and rn.node_zero_label == net['ref']:
+                r.cls('removal-route-compared')
+                rsol = None
+                with r.lib('solve-removed'):
+                    rsol = solver()(rn)
+                if rsol is not None:
+                    with r.lib('query-removed'):
+                        left = {b.id for b in rn.branches}
+                        for n_ in rn.node_labels:
+                            if n_ in ph['phi'] and not tol.close(rsol.get_potential(n_), ph['phi'][n_], S_phi, tol.RTOL_REL * 10):
+                                r.fail('removal-route-potential', f'part {g}: node {n_!r}: after passive_network {rsol.get_potential(n_)}, zeroed in place {ph["phi"][n_]}')
+                        for b in pnet['branches']:
+                            if b['id'] in left and rs.admittance_of(b) is not None:
+                                i_ = rsol.get_current(b['id'])
+                                i_ = -i_ if rs.law(b)[3] == 'linear' else i_
+                                if not tol.close(i_, ph['I12'][b['id']], S_I[b['id']], tol.RTOL_REL * 10):
+                                    r.fail('removal-route-current', f'part {g}: {b["id"]!r}: after passive_network {i_}, zeroed in place {ph["I12"][b["id"]]}')
         for n in acc['phi']:
             acc['phi'][n] += ph['phi'][n]
         for i in acc['V']:
@@ -195,7 +218,7 @@ def linearity_case(draw):
                        st.sampled_from([[-1.0, 0.0], [0.0, 1.0], [2.0, 0.0], [0.5, -0.5]]),
                        st.sampled_from([[1e-9, 0.0], [0.0, -3e-12], [2e-15, 1e-15], [-4e-10, 0.0], [1e7, 0.0]])))
     parts = draw(st.lists(st.sampled_from([0, 1, 2, 3, 1, 0]), min_size=6, max_size=6))
-    return {'net': net, 'a': a, 'parts': parts, 'order': draw(st.booleans())}
+    return {'net': net, 'a': a, 'parts': parts, 'order': draw(st.booleans()), 'removal_route': draw(st.sampled_from([False, True]))}
 
 
 TESTS = [
